@@ -581,20 +581,24 @@ Section Calls.
     destruct (sr_parent rlo) as [op|]; [|apply crel_same, F].
     destruct (sr_child rlo) as [oc|]; [|apply crel_same, F].
     destruct (sr_parent rln) as [np|]; [|apply crel_same, F].
-    rewrite (perm_on_admin op OpenWrite (fr_heap F) V), (perm_on_admin np OpenWrite (fr_heap F) V).
-    destruct (negb (perm_on (f_heap sl) op OpenWrite (v_user vl))); [apply crel_fail, F|].
-    rewrite !(sticky_admin _ _ _ _ (vr_aw V)), !(sticky_admin _ _ _ _ (vr_al V)), !andb_false_r. cbv iota.
-    destruct (negb (Nat.eqb np op) && negb (perm_on (f_heap sl) np OpenWrite (v_user vl))); [apply crel_fail, F|].
     assert (Hmove : forall hw0 hl0, hrel hw0 hl0 ->
               crel (with_heap sw (remove_child (add_child hw0 np (pi_part (sr_pi rln)) oc) op (pi_part (sr_pi rlo))), ROk)
                    (with_heap sl (remove_child (add_child hl0 np (pi_part (sr_pi rln)) oc) op (pi_part (sr_pi rlo))), ROk)).
     { intros hw0 hl0 H0. split; [|reflexivity]. apply frel_with_heap; [exact F|]. apply hrel_remove_child, hrel_add_child, H0. }
-    cbv zeta.
-    destruct (hrel_get_cases oc (fr_heap F)) as [[Ew El]|(nw & nl & Ew & El & Hn)]; rewrite Ew, El; [apply Hmove, (fr_heap F)|].
+    assert (Hnd' : match sr_child rln with Some nc => node_is_dir (f_heap sw) nc | None => false end
+                   = match sr_child rln with Some nc => node_is_dir (f_heap sl) nc | None => false end).
+    { destruct (sr_child rln) as [nc|]; [exact (@hrel_node_is_dir d _ _ nc (fr_heap F))|reflexivity]. }
+    (* the permission checks: both users are administrators *)
+    Ltac ren_perms F V op np sl vl :=
+      rewrite (perm_on_admin op OpenWrite (fr_heap F) V), (perm_on_admin np OpenWrite (fr_heap F) V);
+      destruct (negb (perm_on (f_heap sl) op OpenWrite (v_user vl))); [apply crel_fail, F|];
+      rewrite !(sticky_admin _ _ _ _ (vr_aw V)), !(sticky_admin _ _ _ _ (vr_al V)), !andb_false_r; cbv iota;
+      destruct (negb (Nat.eqb np op) && negb (perm_on (f_heap sl) np OpenWrite (v_user vl))); [apply crel_fail, F|].
+    cbv zeta. rewrite Hnd'.
+    destruct (hrel_get_cases oc (fr_heap F)) as [[Ew El]|(nw & nl & Ew & El & Hn)]; rewrite Ew, El.
+    { ren_perms F V op np sl vl. apply Hmove, (fr_heap F). }
     assert (Hfile : crel
-        (if str_eqb (pi_path (sr_pi rlo)) (pi_path (sr_pi rln)) || match sr_child rln with Some nc => Nat.eqb nc oc | None => false end
-         then (sw, ROk)
-         else match sr_child rln with
+        (match sr_child rln with
               | None => (with_heap sw (remove_child (add_child (f_heap sw) np (pi_part (sr_pi rln)) oc) op (pi_part (sr_pi rlo))), ROk)
               | Some nc => match get (f_heap sw) nc with
                            | Some (NFile _ _ _ _) | Some (NSym _ _) =>
@@ -603,9 +607,7 @@ Section Calls.
                            | _ => (sw, RFail EW_AccessDenied)
                            end
               end)
-        (if str_eqb (pi_path (sr_pi rlo)) (pi_path (sr_pi rln)) || match sr_child rln with Some nc => Nat.eqb nc oc | None => false end
-         then (sl, ROk)
-         else match sr_child rln with
+        (match sr_child rln with
               | None => (with_heap sl (remove_child (add_child (f_heap sl) np (pi_part (sr_pi rln)) oc) op (pi_part (sr_pi rlo))), ROk)
               | Some nc => match get (f_heap sl) nc with
                            | Some (NFile _ _ _ _) | Some (NSym _ _) =>
@@ -614,22 +616,20 @@ Section Calls.
                            | _ => (sl, RFail EC_FileExists)
                            end
               end)).
-    { destruct (str_eqb (pi_path (sr_pi rlo)) (pi_path (sr_pi rln)) || match sr_child rln with Some nc => Nat.eqb nc oc | None => false end);
-        [apply crel_same, F|].
-      destruct (sr_child rln) as [nc|]; [|apply Hmove, (fr_heap F)].
+    { destruct (sr_child rln) as [nc|]; [|apply Hmove, (fr_heap F)].
       destruct (hrel_get_cases nc (fr_heap F)) as [[Ew' El']|(nw' & nl' & Ew' & El' & Hn')]; rewrite Ew', El'; [apply crel_fail, F|].
       rewrite (sticky_admin _ _ _ _ (vr_aw V)), (sticky_admin _ _ _ _ (vr_al V)).
       destruct Hn'; [apply crel_fail, F|apply Hmove, hrel_delete_node, (fr_heap F)|apply Hmove, hrel_delete_node, (fr_heap F)]. }
-    destruct Hn as [ch mw ml|dt k i mw ml|lw ll mw ml Hlnk]; [|exact Hfile|exact Hfile].
-    assert (Hnd' : match sr_child rln with Some nc => node_is_dir (f_heap sw) nc | None => false end
-                   = match sr_child rln with Some nc => node_is_dir (f_heap sl) nc | None => false end).
-    { destruct (sr_child rln) as [nc|]; [exact (@hrel_node_is_dir d _ _ nc (fr_heap F))|reflexivity]. }
-    rewrite Hnd'.
+    destruct Hn as [ch mw ml|dt k i mw ml|lw ll mw ml Hlnk].
+    2,3: (destruct (str_eqb (pi_path (sr_pi rlo)) (pi_path (sr_pi rln)) || match sr_child rln with Some nc => Nat.eqb nc oc | None => false end);
+          [apply crel_same, F|]; ren_perms F V op np sl vl; exact Hfile).
     destruct (match sr_child rln with Some nc => node_is_dir (f_heap sl) nc | None => false end && negb (is_not_exist (sr_err rln))).
     - destruct (match sr_child rln with Some nc => Nat.eqb nc oc | None => false end && negb (str_eqb (SLASH :: ro) (SLASH :: rn)));
         [apply crel_same, F|apply crel_fail, F].
-    - destruct (Nat.eqb oc op || is_prefix (pi_path (sr_pi rlo) ++ [SLASH]) (pi_path (sr_pi rln))); [apply crel_fail, F|].
-      destruct (negb (is_not_exist (sr_err rln))); [apply crel_fail, F|apply Hmove, (fr_heap F)].
+    - ren_perms F V op np sl vl.
+      destruct (Nat.eqb oc op || is_prefix (pi_path (sr_pi rlo) ++ [SLASH]) (pi_path (sr_pi rln))); [apply crel_fail, F|].
+      destruct (negb (is_not_exist (sr_err rln))); [apply crel_fail, F|].
+      rewrite (vr_aw V), (vr_al V). cbn [negb]. rewrite !andb_false_r. apply Hmove, (fr_heap F).
   Qed.
 
   (* ---- OpenFile and the composites built on it -------------------------------------------------- *)
